@@ -2,7 +2,7 @@
 C01 (fragments F2…): `bind_objects` as a fold per field name, independent of the order in which
 the child elements of different vars arrive; the `assigned` bookkeeping for block-wise entries.
 -/
-import XsdataModel.Proofs.C01NParse
+import XsdataModel.Proofs.C01NWild
 
 namespace Proofs.C01
 open Py Xs.Bind Xs.Bind.F1 Xs.Bind.FN
